@@ -88,6 +88,8 @@ def clone_value(v):
 
 def unkey(k):
     """the value a stored map / set key stands for (composite keys are encoded by Interp.key_of)"""
+    if isinstance(k, str) and k.startswith('TS\x1f'):
+        return ('ts', k[3:])
     if isinstance(k, str) and k.startswith('T\x1f'):
         out = []
         for e in k.split('\x1f')[1:]:
@@ -355,6 +357,10 @@ class Interp:
             if op.endswith('WithOverflow'):
                 v = {'AddWithOverflow': x + y, 'SubWithOverflow': x - y, 'MulWithOverflow': x * y}.get(op)
                 return ('tuple', [Cell(('int', v)), Cell(mk_bool(v is not None and v < 0))])
+            if op in ('Div', 'Rem') and x is not None and y is not None:
+                if y == 0:
+                    raise PanicPath('division by zero')
+                return ('int', x // y if op == 'Div' else x % y)
             try:
                 return ('int', {'Add': x + y, 'Sub': x - y, 'Mul': x * y}[op])
             except KeyError:
@@ -599,6 +605,8 @@ class Interp:
             return 'T\x1f' + '\x1f'.join(enc)
         if v is not None and v[0] == 'adt' and v[1] == 'alloc::borrow::Cow' and len(v[3]) == 1:
             return self.key_of(v[3][0].v)
+        if v is not None and v[0] == 'ts':
+            return 'TS\x1f' + str(v[1])
         if v is None or v[0] != 'key':
             raise Unmodelled('map key is not a symbolic key: %r' % (v,))
         return v[1]
@@ -637,6 +645,8 @@ class Interp:
                     return mk_bool({'is_eq': o[2] == 1, 'is_ne': o[2] != 1, 'is_lt': o[2] == 0, 'is_gt': o[2] == 2, 'is_le': o[2] <= 1, 'is_ge': o[2] >= 1}[seg])
         if name in ('core::cmp::max', 'core::cmp::Ord::max', 'core::cmp::min', 'core::cmp::Ord::min'):
             a, b = A[0], A[1]
+            if a[0] == 'int' and b[0] == 'int' and a[1] is not None and b[1] is not None:
+                return ('int', max(a[1], b[1]) if seg == 'max' else min(a[1], b[1]))
             if a[0] not in ('ts', 'dur') or b[0] != a[0]:
                 raise Unmodelled('max/min on %s' % a[0])
             r = self.order.cmp(a[1], b[1])
@@ -1038,6 +1048,16 @@ class Interp:
         raise Unmodelled('%s is not modelled' % name)
 
     def ordered(self, m):
+        ks = list(m.items)
+        if any(isinstance(k, str) and k.startswith('TS\x1f') for k in ks):
+            # stamp keys: a BTreeMap walks them in the order relation of the abstract input
+            import functools
+            def c(a, b):
+                if a.startswith('TS\x1f') and b.startswith('TS\x1f'):
+                    return {'<': -1, '=': 0, '>': 1}[self.order.cmp(a[3:], b[3:])]
+                return (a > b) - (a < b)
+            ks = sorted(ks, key=functools.cmp_to_key(c)) if m.kind == 'btree' else sorted(ks)
+            return [(k, m.items[k]) for k in ks]
         return sorted(m.items.items())
 
     def model_entry(self, name, seg, A, depth):
@@ -1119,6 +1139,14 @@ class Interp:
             return IterObj([('ref', c) for c in d[1]] if is_ref else [c.v for c in d[1]])
         if d[0] == 'set':
             return IterObj([('ref', Cell(unkey(k))) for k in sorted(d[1])] if is_ref else [unkey(k) for k in sorted(d[1])])
+        if d[0] == 'adt' and d[1] in ('core::ops::range::Range', 'core::ops::range::RangeInclusive') and len(d[3]) >= 2:
+            lo, hi = self.deref_all(d[3][0].v), self.deref_all(d[3][1].v)
+            if lo[0] != 'int' or hi[0] != 'int' or lo[1] is None or hi[1] is None:
+                raise Unmodelled('iteration over a range with unknown bounds')
+            top = hi[1] + (1 if d[1].endswith('Inclusive') else 0)
+            if top - lo[1] > 4096:
+                raise Unmodelled('iteration over a long range')
+            return IterObj([('int', i) for i in range(lo[1], top)])
         raise Unmodelled('iteration over %s' % d[0])
 
     def iter_next(self, it, depth):
